@@ -15,7 +15,7 @@ package mpb
 //@   requires container != nil && bs != nil
 //@   ensures  result != nil && fresh(result)
 //@   ensures  result.priority == bs.priority && result.container == container
-//@   ensures  buffered@C15,C02: cap(result.frameCh) == 1 // flush returns at the first failed frame: every other bar must still be able to deposit its frame and see the cancellation
+//@   ensures  buffered: cap(result.frameCh) == 1 // flush returns at the first failed frame: every other bar must still be able to deposit its frame and see the cancellation
 
 // ---------------------------------------------------------------------------------------
 // bar state: completion (C09, C11)
@@ -56,7 +56,7 @@ package mpb
 //@   ensures  plain: !(old(s.triggerComplete) && wrap64(old(s.current) + n) >= old(s.total))
 //@              ==> s.current == wrap64(old(s.current) + n) && s.triggerComplete == old(s.triggerComplete)
 //@   ensures  S1@C11: old(s.completed()) && n >= 0 ==> s.completed()
-//@   ensures  S2@C11: old(s.aborted) ==> s.aborted && !s.completed()
+//@   ensures  S2: old(s.aborted) ==> s.aborted && !s.completed()
 
 //@ func (*Bar).SetCurrent$1
 //@   props    C09 C11 C10
@@ -67,7 +67,7 @@ package mpb
 //@   ensures  plain: !(old(s.triggerComplete) && current >= old(s.total))
 //@              ==> s.current == current && s.triggerComplete == old(s.triggerComplete)
 //@   ensures  S1@C11: old(s.completed()) && current >= old(s.current) ==> s.completed()
-//@   ensures  S2@C11: old(s.aborted) ==> s.aborted && !s.completed()
+//@   ensures  S2: old(s.aborted) ==> s.aborted && !s.completed()
 
 //@ func (*Bar).SetTotal$1
 //@   props    C09 C11 C10
@@ -79,7 +79,7 @@ package mpb
 //@   ensures  complete: !old(s.triggerComplete) && complete ==> s.current == s.total && s.triggerComplete
 //@   ensures  keep: !old(s.triggerComplete) && !complete ==> s.current == old(s.current) && !s.triggerComplete
 //@   ensures  S1@C11: old(s.completed()) ==> s.completed()
-//@   ensures  S2@C11: old(s.aborted) ==> s.aborted && !s.completed()
+//@   ensures  S2: old(s.aborted) ==> s.aborted && !s.completed()
 
 //@ func (*Bar).EnableTriggerComplete$1
 //@   props    C09 C11 C10
@@ -90,7 +90,7 @@ package mpb
 //@   ensures  capped: !old(s.triggerComplete) && old(s.current) >= old(s.total) ==> s.current == s.total
 //@   ensures  plain: !old(s.triggerComplete) && old(s.current) < old(s.total) ==> s.current == old(s.current)
 //@   ensures  S1@C11: old(s.completed()) ==> s.completed()
-//@   ensures  S2@C11: old(s.aborted) ==> s.aborted && !s.completed()
+//@   ensures  S2: old(s.aborted) ==> s.aborted && !s.completed()
 
 //@ func (*Bar).SetRefill$1
 //@   props    C09 C11 C10
@@ -107,8 +107,8 @@ package mpb
 //@              ==> s.aborted == old(s.aborted) && s.rmOnComplete == old(s.rmOnComplete) && s.triggerComplete == old(s.triggerComplete)
 //@   ensures  abort: !old(s.aborted) && !old(s.completed()) ==> s.aborted && s.rmOnComplete == drop
 //@   ensures  S1@C11: old(s.completed()) ==> s.completed()
-//@   ensures  S2@C11: old(s.aborted) ==> s.aborted && !s.completed()
-//@   ensures  exclusive@C11: !(s.aborted && s.completed())
+//@   ensures  S2: old(s.aborted) ==> s.aborted && !s.completed()
+//@   ensures  exclusive: !(s.aborted && s.completed())
 
 // getters: exactly one value is sent, it is the field (or the observation completed()), and
 // nothing is modified
@@ -297,7 +297,7 @@ package mpb
 //@   ensures  called("decor.EwmaDecorator.EwmaUpdate") == old(called("decor.EwmaDecorator.EwmaUpdate")) + 1
 //@   ensures  calledWith("decor.EwmaDecorator.EwmaUpdate", 0) == d && calledWith("decor.EwmaDecorator.EwmaUpdate", 1) == n
 //@            && calledWith("decor.EwmaDecorator.EwmaUpdate", 2) == iterDur
-//@   ensures  done@C10,C19,C20: called("(*sync.WaitGroup).Done") == old(called("(*sync.WaitGroup).Done")) + 1
+//@   ensures  done: called("(*sync.WaitGroup).Done") == old(called("(*sync.WaitGroup).Done")) + 1
 
 //@ func (*Bar).EwmaIncrInt64$1
 //@   props    C19 C09 C11 C10 C20
@@ -313,8 +313,8 @@ package mpb
 //@   ensures  plain: !(old(s.triggerComplete) && wrap64(old(s.current) + n) >= old(s.total))
 //@              ==> s.current == wrap64(old(s.current) + n) && s.triggerComplete == old(s.triggerComplete)
 //@   ensures  S1@C11: old(s.completed()) && n >= 0 ==> s.completed()
-//@   ensures  S2@C11: old(s.aborted) ==> s.aborted && !s.completed()
-//@   ensures  joined@C10,C19,C20: called("(*sync.WaitGroup).Add") == old(called("(*sync.WaitGroup).Add")) + 1 && calledWith("(*sync.WaitGroup).Add", 1) == len(s.ewmaDecorators)
+//@   ensures  S2: old(s.aborted) ==> s.aborted && !s.completed()
+//@   ensures  joined: called("(*sync.WaitGroup).Add") == old(called("(*sync.WaitGroup).Add")) + 1 && calledWith("(*sync.WaitGroup).Add", 1) == len(s.ewmaDecorators)
 //@              && called("(*sync.WaitGroup).Wait") == old(called("(*sync.WaitGroup).Wait")) + 1
 
 //@ func (*Bar).EwmaSetCurrent$1$1
@@ -323,7 +323,7 @@ package mpb
 //@   ensures  called("decor.EwmaDecorator.EwmaUpdate") == old(called("decor.EwmaDecorator.EwmaUpdate")) + 1
 //@   ensures  calledWith("decor.EwmaDecorator.EwmaUpdate", 0) == d && calledWith("decor.EwmaDecorator.EwmaUpdate", 1) == n
 //@            && calledWith("decor.EwmaDecorator.EwmaUpdate", 2) == iterDur
-//@   ensures  done@C10,C19,C20: called("(*sync.WaitGroup).Done") == old(called("(*sync.WaitGroup).Done")) + 1
+//@   ensures  done: called("(*sync.WaitGroup).Done") == old(called("(*sync.WaitGroup).Done")) + 1
 
 //@ func (*Bar).EwmaSetCurrent$1
 //@   props    C19 C09 C11 C10 C20
@@ -339,8 +339,8 @@ package mpb
 //@   ensures  plain: !(old(s.triggerComplete) && current >= old(s.total))
 //@              ==> s.current == current && s.triggerComplete == old(s.triggerComplete)
 //@   ensures  S1@C11: old(s.completed()) && current >= old(s.current) ==> s.completed()
-//@   ensures  S2@C11: old(s.aborted) ==> s.aborted && !s.completed()
-//@   ensures  joined@C10,C19,C20: called("(*sync.WaitGroup).Add") == old(called("(*sync.WaitGroup).Add")) + 1 && calledWith("(*sync.WaitGroup).Add", 1) == len(s.ewmaDecorators)
+//@   ensures  S2: old(s.aborted) ==> s.aborted && !s.completed()
+//@   ensures  joined: called("(*sync.WaitGroup).Add") == old(called("(*sync.WaitGroup).Add")) + 1 && calledWith("(*sync.WaitGroup).Add", 1) == len(s.ewmaDecorators)
 //@              && called("(*sync.WaitGroup).Wait") == old(called("(*sync.WaitGroup).Wait")) + 1
 
 // ---------------------------------------------------------------------------------------
@@ -413,35 +413,35 @@ package mpb
 //@   loop 1   invariant fillCount == tip.width + dw(filling) + dw(refilling) + dw(padding) && dw(padding) == 0 && dw(refilling) == 0
 //@   loop 1   invariant curWidth <= width && refWidth <= width && fillCount <= max(width, tip.width) && fillCount >= 0
 //@   loop 1   invariant dw(written(in(w))) == old(dw(written(in(w)))) + s.components[iLbound].width
-//@   loop 1   invariant share@C08: (stat.Refill == 0 ==> curWidth == prw(stat.Total, stat.Current, width) && refWidth == 0) && (stat.Refill != 0 ==> refWidth == prw(stat.Total, stat.Current, width) && curWidth <= refWidth)
-//@   loop 1   invariant upper@C08: fillCount <= max(prw(stat.Total, stat.Current, width), tip.width)
+//@   loop 1   invariant share: (stat.Refill == 0 ==> curWidth == prw(stat.Total, stat.Current, width) && refWidth == 0) && (stat.Refill != 0 ==> refWidth == prw(stat.Total, stat.Current, width) && curWidth <= refWidth)
+//@   loop 1   invariant upper: fillCount <= max(prw(stat.Total, stat.Current, width), tip.width)
 //@   loop 1   decreases curWidth - fillCount
 //@   loop 2   invariant fillCount == tip.width + dw(filling) + dw(refilling) + dw(padding) && dw(padding) == 0
 //@   loop 2   invariant curWidth <= width && refWidth <= width && fillCount <= max(width, tip.width) && fillCount >= 0
-//@   loop 2   invariant refilled@C08: dw(refilling) <= max(refWidth, 0)
+//@   loop 2   invariant refilled: dw(refilling) <= max(refWidth, 0)
 //@   loop 2   invariant dw(written(in(w))) == old(dw(written(in(w)))) + s.components[iLbound].width
-//@   loop 2   invariant share@C08: (stat.Refill == 0 ==> curWidth == prw(stat.Total, stat.Current, width) && refWidth == 0) && (stat.Refill != 0 ==> refWidth == prw(stat.Total, stat.Current, width) && curWidth <= refWidth)
-//@   loop 2   invariant upper@C08: fillCount <= max(prw(stat.Total, stat.Current, width), tip.width)
-//@   loop 2   invariant lowfill@C08: stat.Refill == 0 && s.components[iFiller].width > 0 ==> fillCount > curWidth - s.components[iFiller].width
+//@   loop 2   invariant share: (stat.Refill == 0 ==> curWidth == prw(stat.Total, stat.Current, width) && refWidth == 0) && (stat.Refill != 0 ==> refWidth == prw(stat.Total, stat.Current, width) && curWidth <= refWidth)
+//@   loop 2   invariant upper: fillCount <= max(prw(stat.Total, stat.Current, width), tip.width)
+//@   loop 2   invariant lowfill: stat.Refill == 0 && s.components[iFiller].width > 0 ==> fillCount > curWidth - s.components[iFiller].width
 //@   loop 2   decreases refWidth - fillCount
 //@   loop 3   invariant fillCount == tip.width + dw(filling) + dw(refilling) + dw(padding)
 //@   loop 3   invariant fillCount <= max(width, tip.width) && fillCount >= 0
 //@   loop 3   invariant dw(written(in(w))) == old(dw(written(in(w)))) + s.components[iLbound].width
-//@   loop 3   invariant upper@C08: tip.width + dw(filling) + dw(refilling) <= max(prw(stat.Total, stat.Current, width), tip.width)
-//@   loop 3   invariant lower@C08: (stat.Refill == 0 && s.components[iFiller].width > 0 ==> tip.width + dw(filling) + dw(refilling) > prw(stat.Total, stat.Current, width) - s.components[iFiller].width)
+//@   loop 3   invariant upper: tip.width + dw(filling) + dw(refilling) <= max(prw(stat.Total, stat.Current, width), tip.width)
+//@   loop 3   invariant lower: (stat.Refill == 0 && s.components[iFiller].width > 0 ==> tip.width + dw(filling) + dw(refilling) > prw(stat.Total, stat.Current, width) - s.components[iFiller].width)
 //@              && (stat.Refill != 0 && s.components[iRefiller].width > 0 ==> tip.width + dw(filling) + dw(refilling) > prw(stat.Total, stat.Current, width) - s.components[iRefiller].width)
 //@   loop 3   decreases width - fillCount
 //@   loop 4   invariant fillCount == tip.width + dw(filling) + dw(refilling) + dw(padding)
 //@   loop 4   invariant fillCount <= max(width, tip.width) && fillCount >= 0
 //@   loop 4   invariant dw(written(in(w))) == old(dw(written(in(w)))) + s.components[iLbound].width
 //@   loop 4   decreases width - fillCount
-//@   ensures  neg@C07,C02: allot(stat.RequestedWidth, stat.AvailableWidth) < s.components[iLbound].width + s.components[iRbound].width
+//@   ensures  neg@!C08: allot(stat.RequestedWidth, stat.AvailableWidth) < s.components[iLbound].width + s.components[iRbound].width
 //@              ==> result == nil && dw(written(w)) == old(dw(written(w)))
-//@   ensures  zero@C07,C02: allot(stat.RequestedWidth, stat.AvailableWidth) == s.components[iLbound].width + s.components[iRbound].width && result == nil
+//@   ensures  zero@!C08: allot(stat.RequestedWidth, stat.AvailableWidth) == s.components[iLbound].width + s.components[iRbound].width && result == nil
 //@              ==> dw(written(w)) == old(dw(written(w))) + allot(stat.RequestedWidth, stat.AvailableWidth)
-//@   ensures  exact@C07,C02: allot(stat.RequestedWidth, stat.AvailableWidth) > s.components[iLbound].width + s.components[iRbound].width && result == nil
+//@   ensures  exact@!C08: allot(stat.RequestedWidth, stat.AvailableWidth) > s.components[iLbound].width + s.components[iRbound].width && result == nil
 //@              ==> dw(written(w)) == old(dw(written(w))) + allot(stat.RequestedWidth, stat.AvailableWidth)
-//@   ensures  fits@C07,C02: dw(written(w)) - old(dw(written(w))) <= max(0, stat.AvailableWidth)
+//@   ensures  fits@!C08: dw(written(w)) - old(dw(written(w))) <= max(0, stat.AvailableWidth)
 
 //@ func (BarFillerFunc).Fill
 //@   props    C07
@@ -565,7 +565,7 @@ package mpb
 //@   requires s != nil && w != nil
 //@   requires 0 <= stat.AvailableWidth && stat.AvailableWidth <= 1<<31 && stat.RequestedWidth <= 1<<31
 //@   modifies written(w), s.count
-//@   ensures  fits: dw(written(w)) - old(dw(written(w))) <= max(0, stat.AvailableWidth) && dw(written(w)) >= old(dw(written(w)))
+//@   ensures  fits@!C08: dw(written(w)) - old(dw(written(w))) <= max(0, stat.AvailableWidth) && dw(written(w)) >= old(dw(written(w)))
 //@   ensures  exact: result == nil ==> dw(written(w)) == old(dw(written(w))) || dw(written(w)) == old(dw(written(w))) + allot(stat.RequestedWidth, stat.AvailableWidth)
 
 // one row: decorators, two spaces, the filler body, a line feed
@@ -581,7 +581,7 @@ package mpb
 //@   loop 1   invariant called("decor.Decorator.Decor") == old(called("decor.Decorator.Decor")) + rangeindex + 1
 //@   ensures  room: stat.AvailableWidth >= 0 && dw(written(buf)) >= old(dw(written(buf)))
 //@              && dw(written(buf)) - old(dw(written(buf))) <= old(stat.AvailableWidth) - stat.AvailableWidth
-//@   ensures  participation@C12: called("decor.Decorator.Decor") == old(called("decor.Decorator.Decor")) + len(group)
+//@   ensures  participation: called("decor.Decorator.Decor") == old(called("decor.Decorator.Decor")) + len(group)
 
 //@ func (*bState).draw
 //@   props    C07 C04
@@ -620,8 +620,8 @@ package mpb
 //@   loop 2   invariant forall(j, 0, rangeindex + 1, sent(column[j]) == old(sent(column[j])) + 1 && lastSent(column[j]) == maxWidth)
 //@   loop 2   invariant forall(j, rangeindex + 1, len(column), sent(column[j]) == old(sent(column[j])))
 //@   ensures  answered@C15: forall(j, 0, len(column), recvd(column[j]) > old(recvd(column[j])) ==> sent(column[j]) > old(sent(column[j])))
-//@   ensures  maximum@C12: forall(j, 0, len(column), sent(column[j]) > old(sent(column[j])) ==> lastSent(column[j]) >= lastRecvd(column[j]) && sent(column[j]) == old(sent(column[j])) + 1)
-//@   ensures  common@C12: forall(j, 0, len(column), forall(k, 0, len(column), sent(column[j]) > old(sent(column[j])) && sent(column[k]) > old(sent(column[k])) ==> lastSent(column[j]) == lastSent(column[k])))
+//@   ensures  maximum: forall(j, 0, len(column), sent(column[j]) > old(sent(column[j])) ==> lastSent(column[j]) >= lastRecvd(column[j]) && sent(column[j]) == old(sent(column[j])) + 1)
+//@   ensures  common: forall(j, 0, len(column), forall(k, 0, len(column), sent(column[j]) > old(sent(column[j])) && sent(column[k]) > old(sent(column[k])) ==> lastSent(column[j]) == lastSent(column[k])))
 
 // One distributor per column. That every column holds non-nil, pairwise distinct channels is
 // assumed here (it follows from "one decorator instance per bar" and WC.Init; the matrices are
@@ -767,28 +767,28 @@ package mpb
 //@   requires m != nil
 //@   assumes  emptyheap()
 //@   loop 1   invariant pqwf(bHeap) && len(bHeap) >= 0
-//@   loop 1   ensures push@C05: req.cmd == h_push ==> len(bHeap) == iter(len(bHeap)) + 1 && inheap(unboxAs(req.data, "pushData").bar)
-//@   loop 1   ensures keep@C05: req.cmd == h_sync || req.cmd == h_fix || req.cmd == h_state || req.cmd == h_end ==> len(bHeap) == iter(len(bHeap))
-//@   loop 1   ensures conserved@C05: req.cmd == h_iter ==> closed(unboxAs(req.data, "iterData").iter)
-//@   loop 1   ensures popconserved@C05: req.cmd == h_iter && unboxAs(req.data, "iterData").iterPop != nil
+//@   loop 1   ensures push: req.cmd == h_push ==> len(bHeap) == iter(len(bHeap)) + 1 && inheap(unboxAs(req.data, "pushData").bar)
+//@   loop 1   ensures keep: req.cmd == h_sync || req.cmd == h_fix || req.cmd == h_state || req.cmd == h_end ==> len(bHeap) == iter(len(bHeap))
+//@   loop 1   ensures conserved: req.cmd == h_iter ==> closed(unboxAs(req.data, "iterData").iter)
+//@   loop 1   ensures popconserved: req.cmd == h_iter && unboxAs(req.data, "iterData").iterPop != nil
 //@              ==> len(bHeap) + sent(unboxAs(req.data, "iterData").iterPop) == iter(len(bHeap)) + iter(sent(now(unboxAs(req.data, "iterData").iterPop)))
-//@   loop 1   ensures nopop@C05: req.cmd == h_iter && unboxAs(req.data, "iterData").iterPop == nil ==> len(bHeap) == iter(len(bHeap))
-//@   loop 1   ensures all@C05: req.cmd == h_iter && recvd(unboxAs(req.data, "iterData").drop) == iter(recvd(now(unboxAs(req.data, "iterData").drop)))
+//@   loop 1   ensures nopop: req.cmd == h_iter && unboxAs(req.data, "iterData").iterPop == nil ==> len(bHeap) == iter(len(bHeap))
+//@   loop 1   ensures all: req.cmd == h_iter && recvd(unboxAs(req.data, "iterData").drop) == iter(recvd(now(unboxAs(req.data, "iterData").drop)))
 //@              ==> sent(unboxAs(req.data, "iterData").iter) == iter(sent(now(unboxAs(req.data, "iterData").iter))) + iter(len(bHeap))
 //@                  && (unboxAs(req.data, "iterData").iterPop != nil ==> len(bHeap) == 0 && closed(unboxAs(req.data, "iterData").iterPop))
-//@   loop 1   ensures fixed@C06: req.cmd == h_fix && iter(now(unboxAs(req.data, "fixData").bar).index) >= 0
+//@   loop 1   ensures fixed: req.cmd == h_fix && iter(now(unboxAs(req.data, "fixData").bar).index) >= 0
 //@              ==> unboxAs(req.data, "fixData").bar.priority == unboxAs(req.data, "fixData").priority
 //@                  && (unboxAs(req.data, "fixData").lazy ==> !hord()) && (!unboxAs(req.data, "fixData").lazy && iter(hord()) ==> hord())
-//@   loop 1   ensures unfixed@C06: req.cmd == h_fix && iter(now(unboxAs(req.data, "fixData").bar).index) < 0
+//@   loop 1   ensures unfixed: req.cmd == h_fix && iter(now(unboxAs(req.data, "fixData").bar).index) < 0
 //@              ==> unboxAs(req.data, "fixData").bar.priority == iter(now(unboxAs(req.data, "fixData").bar).priority) && hord() == iter(hord())
-//@   loop 1   ensures syncflag@C12,C02,C17: req.cmd == h_push ==> sync == (iter(sync) || unboxAs(req.data, "pushData").sync)
-//@   loop 1   ensures synced@C12: req.cmd == h_sync ==> !sync && len == len(bHeap) && spawned("maxWidthDistributor") >= iter(spawned("maxWidthDistributor"))
-//@   loop 1   ensures syncframe@C12: req.cmd != h_push && req.cmd != h_sync ==> sync == iter(sync) && len == iter(len)
-//@   loop 1   ensures state@C03: req.cmd == h_state ==> sent(unboxAs(req.data, "chan<- bool")) == iter(sent(now(unboxAs(req.data, "chan<- bool")))) + 1 && lastSent(unboxAs(req.data, "chan<- bool")) == (iter(sync) || iter(len) != len(bHeap))
+//@   loop 1   ensures syncflag: req.cmd == h_push ==> sync == (iter(sync) || unboxAs(req.data, "pushData").sync)
+//@   loop 1   ensures synced: req.cmd == h_sync ==> !sync && len == len(bHeap) && spawned("maxWidthDistributor") >= iter(spawned("maxWidthDistributor"))
+//@   loop 1   ensures syncframe: req.cmd != h_push && req.cmd != h_sync ==> sync == iter(sync) && len == iter(len)
+//@   loop 1   ensures state: req.cmd == h_state ==> sent(unboxAs(req.data, "chan<- bool")) == iter(sent(now(unboxAs(req.data, "chan<- bool")))) + 1 && lastSent(unboxAs(req.data, "chan<- bool")) == (iter(sync) || iter(len) != len(bHeap))
 //@              && lastSent(unboxAs(req.data, "chan<- bool")) == (sync || len != len(bHeap))
-//@   loop 1   ensures ended@C14,C05,C02: req.cmd == h_end ==> closed(m)
-//@   loop 1   ensures notify@C14: req.cmd == h_end && unboxAs(req.data, "chan<- interface{}") != nil ==> spawned("(heapManager).run$1") == iter(spawned("(heapManager).run$1")) + 1
-//@   loop 1   ensures nonotify@C14: req.cmd != h_end ==> spawned("(heapManager).run$1") == iter(spawned("(heapManager).run$1"))
+//@   loop 1   ensures ended: req.cmd == h_end ==> closed(m)
+//@   loop 1   ensures notify: req.cmd == h_end && unboxAs(req.data, "chan<- interface{}") != nil ==> spawned("(heapManager).run$1") == iter(spawned("(heapManager).run$1")) + 1
+//@   loop 1   ensures nonotify: req.cmd != h_end ==> spawned("(heapManager).run$1") == iter(spawned("(heapManager).run$1"))
 //@   loop 2   invariant pqwf(bHeap)
 //@   loop 3   invariant pqwf(bHeap)
 //@   loop 4   invariant pqwf(bHeap)
@@ -797,13 +797,13 @@ package mpb
 //@   loop 5   invariant sent(data.iter) == entry(5, sent(data.iter)) + rangeindex + 1 && recvd(data.drop) == entry(5, recvd(data.drop))
 //@   loop 5   invariant data.iter == unboxAs(req.data, "iterData").iter && data.drop == unboxAs(req.data, "iterData").drop && data.iterPop == unboxAs(req.data, "iterData").iterPop
 //@   loop 5   invariant data.iterPop != nil ==> sent(data.iterPop) == entry(5, sent(data.iterPop))
-//@   loop 5   ensures every@C05: sent(data.iter) == iter(sent(data.iter)) + 1 && lastSent(data.iter) == b
+//@   loop 5   ensures every: sent(data.iter) == iter(sent(data.iter)) + 1 && lastSent(data.iter) == b
 //@   loop 6   invariant pqwf(bHeap) && len(bHeap) >= 0 && data.iterPop != nil && !closed(data.iterPop)
-//@   loop 6   invariant conserved@C05: len(bHeap) + sent(data.iterPop) == entry(6, len(bHeap) + sent(data.iterPop))
+//@   loop 6   invariant conserved: len(bHeap) + sent(data.iterPop) == entry(6, len(bHeap) + sent(data.iterPop))
 //@   loop 6   invariant recvd(data.drop) == entry(6, recvd(data.drop)) && sent(data.iter) == entry(6, sent(data.iter))
 //@   loop 6   invariant data.iter == unboxAs(req.data, "iterData").iter && data.drop == unboxAs(req.data, "iterData").drop && data.iterPop == unboxAs(req.data, "iterData").iterPop
-//@   loop 6   ensures delivered@C05: sent(data.iterPop) == iter(sent(data.iterPop)) + 1 && lastSent(data.iterPop) == bar && len(bHeap) == iter(len(bHeap)) - 1 && !inheap(bar)
-//@   loop 6   ensures order@C06: iter(hord()) ==> bar.priority <= iter(hbound()) && hbound() == bar.priority && hord()
+//@   loop 6   ensures delivered: sent(data.iterPop) == iter(sent(data.iterPop)) + 1 && lastSent(data.iterPop) == bar && len(bHeap) == iter(len(bHeap)) - 1 && !inheap(bar)
+//@   loop 6   ensures order: iter(hord()) ==> bar.priority <= iter(hbound()) && hbound() == bar.priority && hord()
 
 // ---------------------------------------------------------------------------------------
 // container state
@@ -825,33 +825,33 @@ package mpb
 //@   loop 1   invariant len(rows) <= height && popCount >= 0 && popCount <= len(rows) && len(pushes) >= 0 && !closed(s.hm) && !closed(s.iterDrop)
 //@   loop 1   invariant forall(k, 0, len(pushes), pushes[k].bar != nil) && s.popPriority < 1<<61 + len(pushes)
 //@   loop 1   invariant called("(*Writer).Flush") == old(called("(*Writer).Flush")) && called("(heapManager).push") == old(called("(heapManager).push"))
-//@   loop 1   ensures atmost@C05: len(pushes) == iter(len(pushes)) || len(pushes) == iter(len(pushes)) + 1
-//@   loop 1   ensures normal@C05: frame.shutdown != 1 && frame.shutdown != 2
+//@   loop 1   ensures atmost: len(pushes) == iter(len(pushes)) || len(pushes) == iter(len(pushes)) + 1
+//@   loop 1   ensures normal: frame.shutdown != 1 && frame.shutdown != 2
 //@              ==> len(pushes) == iter(len(pushes)) + 1 && pushes[len(pushes) - 1].bar == b && !pushes[len(pushes) - 1].sync
-//@   loop 1   ensures popped@C18,C05,C04,C03: frame.shutdown == 2 && s.popCompleted && !frame.noPop
+//@   loop 1   ensures popped: frame.shutdown == 2 && s.popCompleted && !frame.noPop
 //@              ==> len(pushes) == iter(len(pushes)) && popCount == iter(popCount) + len(rows) - iter(len(rows))
-//@   loop 1   ensures kept@C18,C05,C03: frame.shutdown == 2 && !(s.popCompleted && !frame.noPop)
+//@   loop 1   ensures kept: frame.shutdown == 2 && !(s.popCompleted && !frame.noPop)
 //@              ==> len(pushes) == iter(len(pushes)) + 1 && pushes[len(pushes) - 1].bar == b && !pushes[len(pushes) - 1].sync && popCount == iter(popCount)
-//@   loop 1   ensures successor@C17,C05,C06,C18: frame.shutdown == 1 && iter(has(s.queueBars, now(b)))
+//@   loop 1   ensures successor: frame.shutdown == 1 && iter(has(s.queueBars, now(b)))
 //@              ==> len(pushes) == iter(len(pushes)) + 1 && pushes[len(pushes) - 1].bar == iter(s.queueBars[now(b)]) && pushes[len(pushes) - 1].sync
 //@                  && pushes[len(pushes) - 1].bar.priority == iter(now(b).priority) && b.priority == iter(now(b).priority) && !has(s.queueBars, b)
-//@   loop 1   ensures retired@C17: (frame.shutdown == 1 ==> b.retired) && (frame.shutdown != 1 ==> b.retired == iter(now(b).retired))
-//@   loop 1   ensures slot@C17: frame.shutdown != 1 ==> mapdom(s.queueBars) == iter(mapdom(s.queueBars)) && mapval(s.queueBars) == iter(mapval(s.queueBars))
-//@   loop 1   ensures toppop@C18,C06,C05: frame.shutdown == 1 && !iter(has(s.queueBars, now(b))) && s.popCompleted && !frame.noPop
+//@   loop 1   ensures retired: (frame.shutdown == 1 ==> b.retired) && (frame.shutdown != 1 ==> b.retired == iter(now(b).retired))
+//@   loop 1   ensures slot: frame.shutdown != 1 ==> mapdom(s.queueBars) == iter(mapdom(s.queueBars)) && mapval(s.queueBars) == iter(mapval(s.queueBars))
+//@   loop 1   ensures toppop: frame.shutdown == 1 && !iter(has(s.queueBars, now(b))) && s.popCompleted && !frame.noPop
 //@              ==> len(pushes) == iter(len(pushes)) + 1 && pushes[len(pushes) - 1].bar == b && !pushes[len(pushes) - 1].sync
 //@                  && b.priority == iter(s.popPriority) && s.popPriority == iter(s.popPriority) + 1
-//@   loop 1   ensures stays@C05: frame.shutdown == 1 && !iter(has(s.queueBars, now(b))) && !(s.popCompleted && !frame.noPop) && !frame.rmOnComplete
+//@   loop 1   ensures stays: frame.shutdown == 1 && !iter(has(s.queueBars, now(b))) && !(s.popCompleted && !frame.noPop) && !frame.rmOnComplete
 //@              ==> len(pushes) == iter(len(pushes)) + 1 && pushes[len(pushes) - 1].bar == b && !pushes[len(pushes) - 1].sync
-//@   loop 1   ensures removed@C05,C03: frame.shutdown == 1 && !iter(has(s.queueBars, now(b))) && !(s.popCompleted && !frame.noPop) && frame.rmOnComplete
+//@   loop 1   ensures removed: frame.shutdown == 1 && !iter(has(s.queueBars, now(b))) && !(s.popCompleted && !frame.noPop) && frame.rmOnComplete
 //@              ==> len(pushes) == iter(len(pushes))
-//@   loop 1   ensures cancel@C03: (frame.shutdown == 1) == (called("Bar.cancel") == iter(called("Bar.cancel")) + 1)
+//@   loop 1   ensures cancel: (frame.shutdown == 1) == (called("Bar.cancel") == iter(called("Bar.cancel")) + 1)
 //@              && (frame.shutdown != 1 ==> called("Bar.cancel") == iter(called("Bar.cancel")))
-//@   loop 1   ensures priority@C06: frame.shutdown != 1 ==> s.popPriority == iter(s.popPriority) && b.priority == iter(now(b).priority)
-//@   loop 1   ensures clip@C04: len(rows) == iter(len(rows)) + min(len(frame.rows), height - iter(len(rows)))
+//@   loop 1   ensures priority: frame.shutdown != 1 ==> s.popPriority == iter(s.popPriority) && b.priority == iter(now(b).priority)
+//@   loop 1   ensures clip: len(rows) == iter(len(rows)) + min(len(frame.rows), height - iter(len(rows)))
 //@   loop 1   ensures shown@C18: frame.shutdown == 2 && s.popCompleted && !frame.noPop ==> len(rows) - iter(len(rows)) == len(frame.rows)
-//@   loop 1   ensures nopoponkeep@C18: !(frame.shutdown == 2 && s.popCompleted && !frame.noPop) ==> popCount == iter(popCount)
+//@   loop 1   ensures nopoponkeep: !(frame.shutdown == 2 && s.popCompleted && !frame.noPop) ==> popCount == iter(popCount)
 //@   loop 2   invariant forall(k, 0, len(pushes), pushes[k].bar != nil) && !closed(s.hm)
-//@   loop 2   invariant dropfirst@C15,C02: closed(s.iterDrop) // the manager is still offering the next bar and takes no request until the drop is signalled: pushing first can block for ever
+//@   loop 2   invariant dropfirst: closed(s.iterDrop) // the manager is still offering the next bar and takes no request until the drop is signalled: pushing first can block for ever
 //@   loop 3   invariant -1 <= i && i < len(frame.rows) && usedRows >= 0 && len(rows) <= height
 //@   loop 3   invariant len(rows) == entry(3, len(rows)) + usedRows && usedRows == min(len(frame.rows) - 1 - i, height - entry(3, len(rows)))
 //@   loop 3   invariant frame == entry(3, frame) && frame != nil && frame.rows == entry(3, frame.rows) && b == entry(3, b)
@@ -860,15 +860,15 @@ package mpb
 //@   loop 4   invariant forall(k, 0, len(pushes), pushes[k].bar != nil) && !closed(s.hm) && pushes == entry(4, pushes)
 //@   loop 4   invariant called("(heapManager).push") == entry(4, called("(heapManager).push")) + rangeindex + 1
 //@   loop 4   invariant called("(*Writer).Flush") == old(called("(*Writer).Flush")) && len(rows) == entry(4, len(rows)) && popCount == entry(4, popCount) && rows == entry(4, rows)
-//@   loop 4   ensures fifo@C05: calledWith("(heapManager).push", 1) == p.bar && calledWith("(heapManager).push", 2) == p.sync && p == pushes[rangeindex]
+//@   loop 4   ensures fifo: calledWith("(heapManager).push", 1) == p.bar && calledWith("(heapManager).push", 2) == p.sync && p == pushes[rangeindex]
 //@   loop 5   invariant -1 <= i && i < len(rows) && called("(*Writer).Flush") == old(called("(*Writer).Flush"))
 //@   loop 5   invariant called("(heapManager).push") == entry(5, called("(heapManager).push")) && popCount == entry(5, popCount) && rows == entry(5, rows)
-//@   loop 5   ensures whole@C13,C04: written(cw.Buffer) == iter(written(now(cw.Buffer))) + iter(content(now(rows[i + 1])))
+//@   loop 5   ensures whole: written(cw.Buffer) == iter(written(now(cw.Buffer))) + iter(content(now(rows[i + 1])))
 //@   loop 5   decreases i + 1
-//@   ensures  rowsfit@C04: len(rows) <= height
-//@   ensures  flushed@C04,C18,C13: result == nil ==> called("(*Writer).Flush") == old(called("(*Writer).Flush")) + 1 && calledWith("(*Writer).Flush", 1) == len(rows) - popCount
-//@   ensures  allpushed@C05: result == nil ==> called("(heapManager).push") == old(called("(heapManager).push")) + len(pushes)
-//@   ensures  errdrop@C15: closed(s.iterDrop) ==> result != nil && called("(*Writer).Flush") == old(called("(*Writer).Flush"))
+//@   ensures  rowsfit: len(rows) <= height
+//@   ensures  flushed: result == nil ==> called("(*Writer).Flush") == old(called("(*Writer).Flush")) + 1 && calledWith("(*Writer).Flush", 1) == len(rows) - popCount
+//@   ensures  allpushed: result == nil ==> called("(heapManager).push") == old(called("(heapManager).push")) + len(pushes)
+//@   ensures  errdrop: closed(s.iterDrop) ==> result != nil && called("(*Writer).Flush") == old(called("(*Writer).Flush"))
 //@   ensures  once: result == nil ==> !closed(s.iterDrop)
 //@   ensures  open: !closed(s.hm)
 //@   ensures  parkedstill: forall(k, has(s.queueBars, k) ==> s.queueBars[k] != nil)
@@ -914,9 +914,9 @@ package mpb
 //@   loop 3   invariant bs != nil && fresh(bs) && bs.total == total && bs.current == 0 && bs.refill == 0 && bs.triggerComplete == (total > 0) && !bs.aborted && bs.shutdown == 0
 //@   loop 3   invariant forall(i, 0, len(bs.ewmaDecorators), bs.ewmaDecorators[i] != nil)
 //@   ensures  result != nil && fresh(result)
-//@   ensures  initial@C09: result.total == total && result.current == 0 && result.refill == 0 && result.triggerComplete == (total > 0) && !result.aborted && result.shutdown == 0
-//@   ensures  ewma@C19: forall(i, 0, len(result.ewmaDecorators), result.ewmaDecorators[i] != nil)
-//@   ensures  buffers@C07: result.buffers[0] != nil && result.buffers[1] != nil && result.buffers[2] != nil
+//@   ensures  initial: result.total == total && result.current == 0 && result.refill == 0 && result.triggerComplete == (total > 0) && !result.aborted && result.shutdown == 0
+//@   ensures  ewma: forall(i, 0, len(result.ewmaDecorators), result.ewmaDecorators[i] != nil)
+//@   ensures  buffers: result.buffers[0] != nil && result.buffers[1] != nil && result.buffers[2] != nil
 //@              && result.buffers[0] != result.buffers[1] && result.buffers[0] != result.buffers[2] && result.buffers[1] != result.buffers[2]
 
 // queueing option (C17): whatever the state of the predecessor at the time of the call, the
@@ -924,12 +924,12 @@ package mpb
 //@ func BarQueueAfter
 //@   props    C17 C02
 //@   modifies nothing
-//@   ensures  option@C17: result != nil && fnof(result) == fn("BarQueueAfter$1") && bound(result, "bar") == in(bar)
+//@   ensures  option: result != nil && fnof(result) == fn("BarQueueAfter$1") && bound(result, "bar") == in(bar)
 //@ func BarQueueAfter$1
 //@   props    C17 C02
 //@   requires s != nil
 //@   modifies s.waitBar
-//@   ensures  set@C17: s.waitBar == bar
+//@   ensures  set: s.waitBar == bar
 
 //@ func (*Progress).Add$1
 //@   props    C05 C17 C06 C02 C18
@@ -940,15 +940,15 @@ package mpb
 //@   loop 1   invariant called("(heapManager).push") == old(called("(heapManager).push")) && ps.idCount == old(ps.idCount) && sent(ch) == old(sent(ch))
 //@   loop 1   invariant !closed(ch) && ps.queueBars != nil
 //@   loop 1   invariant ok == has(ps.queueBars, key) && (ok ==> qb == ps.queueBars[key])
-//@   ensures  counted@C06: ps.idCount == old(ps.idCount) + 1
+//@   ensures  counted: ps.idCount == old(ps.idCount) + 1
 //@   ensures  answered: sent(ch) == old(sent(ch)) + 1 && lastSent(ch) != nil
-//@   ensures  accounted@C05,C17: called("(heapManager).push") == old(called("(heapManager).push")) + 1 && calledWith("(heapManager).push", 1) == lastSent(ch) && calledWith("(heapManager).push", 2) == true
+//@   ensures  accounted: called("(heapManager).push") == old(called("(heapManager).push")) + 1 && calledWith("(heapManager).push", 1) == lastSent(ch) && calledWith("(heapManager).push", 2) == true
 //@              || called("(heapManager).push") == old(called("(heapManager).push")) && exists(k, has(ps.queueBars, k) && ps.queueBars[k] == lastSent(ch) && !old(has(ps.queueBars, k)))
-//@   ensures  live@C17: called("(heapManager).push") == old(called("(heapManager).push")) ==> bs.waitBar != nil && !bs.waitBar.retired
-//@   ensures  inherit@C06,C17: called("(heapManager).push") == old(called("(heapManager).push")) + 1 && bs.waitBar != nil && bs.waitBar.priority >= ps.popPriority ==> lastSent(ch).priority == bs.waitBar.priority
-//@   ensures  own@C06: bs.waitBar == nil ==> lastSent(ch).priority == bs.priority
-//@   ensures  abovepop@C18,C17: called("(heapManager).push") == old(called("(heapManager).push")) + 1 && bs.priority >= ps.popPriority ==> lastSent(ch).priority >= ps.popPriority // a bar that starts running never sits among the popped ones (their priorities are below popPriority)
-//@   ensures  nooverwrite@C17: forall(k, old(has(ps.queueBars, k)) ==> has(ps.queueBars, k) && ps.queueBars[k] == old(ps.queueBars[k]))
+//@   ensures  live: called("(heapManager).push") == old(called("(heapManager).push")) ==> bs.waitBar != nil && !bs.waitBar.retired
+//@   ensures  inherit: called("(heapManager).push") == old(called("(heapManager).push")) + 1 && bs.waitBar != nil && bs.waitBar.priority >= ps.popPriority ==> lastSent(ch).priority == bs.waitBar.priority
+//@   ensures  own: bs.waitBar == nil ==> lastSent(ch).priority == bs.priority
+//@   ensures  abovepop: called("(heapManager).push") == old(called("(heapManager).push")) + 1 && bs.priority >= ps.popPriority ==> lastSent(ch).priority >= ps.popPriority // a bar that starts running never sits among the popped ones (their priorities are below popPriority)
+//@   ensures  nooverwrite: forall(k, old(has(ps.queueBars, k)) ==> has(ps.queueBars, k) && ps.queueBars[k] == old(ps.queueBars[k]))
 //@   ensures  parkedstill: forall(k, has(ps.queueBars, k) ==> ps.queueBars[k] != nil)
 
 //@ func unwrap
@@ -956,8 +956,8 @@ package mpb
 //@   requires d != nil
 //@   modifies nothing
 //@   ensures  result != nil
-//@   ensures  innermost@C14,C19,C20: !hasType(result, "decor.Wrapper") // however deeply wrapped: what comes out wraps nothing
-//@   ensures  same@C14,C19,C20: !hasType(d, "decor.Wrapper") ==> result == d
+//@   ensures  innermost: !hasType(result, "decor.Wrapper") // however deeply wrapped: what comes out wraps nothing
+//@   ensures  same: !hasType(d, "decor.Wrapper") ==> result == d
 
 //@ func PrependDecorators
 //@   props    C09 C02
@@ -987,14 +987,14 @@ package mpb
 //@   ensures  result.AvailableWidth == tw && result.RequestedWidth == s.reqWidth && result.ID == s.id
 //@   ensures  result.Total == s.total && result.Current == s.current && result.Refill == s.refill
 //@   ensures  result.Completed == s.completed() && result.Aborted == s.aborted
-//@   ensures  exclusive@C11: !(result.Completed && result.Aborted)
+//@   ensures  exclusive: !(result.Completed && result.Aborted)
 
 //@ iface BarFiller.Fill
 //@   params   w stat
 //@   requires self != nil && w != nil
 //@   requires 0 <= stat.AvailableWidth && stat.AvailableWidth <= 1<<31 && stat.RequestedWidth <= 1<<31
 //@   modifies written(w), bFiller.tip, sFiller.count
-//@   ensures  fits: dw(written(w)) - old(dw(written(w))) <= max(0, stat.AvailableWidth) && dw(written(w)) >= old(dw(written(w)))
+//@   ensures  fits@!C08: dw(written(w)) - old(dw(written(w))) <= max(0, stat.AvailableWidth) && dw(written(w)) >= old(dw(written(w)))
 
 // fn of (*Bar).render: exactly one frame is sent on every path (so flush is never left
 // waiting); a terminal bar stamps the frame with its count of terminal frames so far and
@@ -1010,14 +1010,14 @@ package mpb
 //@   assumes  drained: dw(written(s.buffers[0])) == 0 && dw(written(s.buffers[1])) == 0 && dw(written(s.buffers[2])) == 0
 //@   assumes  s.shutdown < 1<<62
 //@   assumes  widths: s.reqWidth <= 1<<31 // requested widths stay below 2^31 columns
-//@   ensures  oneframe@C15,C03: sent(b.frameCh) == old(sent(b.frameCh)) + 1 && lastSent(b.frameCh) != nil
-//@   ensures  terminal@C03,C18: lastSent(b.frameCh).err == nil && (s.aborted || s.completed())
+//@   ensures  oneframe: sent(b.frameCh) == old(sent(b.frameCh)) + 1 && lastSent(b.frameCh) != nil
+//@   ensures  terminal: lastSent(b.frameCh).err == nil && (s.aborted || s.completed())
 //@              ==> lastSent(b.frameCh).shutdown == old(s.shutdown) && s.shutdown == old(s.shutdown) + 1
 //@                  && lastSent(b.frameCh).rmOnComplete == s.rmOnComplete && lastSent(b.frameCh).noPop == s.noPop
-//@   ensures  running@C03: lastSent(b.frameCh).err == nil && !(s.aborted || s.completed())
+//@   ensures  running: lastSent(b.frameCh).err == nil && !(s.aborted || s.completed())
 //@              ==> lastSent(b.frameCh).shutdown == 0 && s.shutdown == old(s.shutdown)
-//@   ensures  stable@C11: s.aborted == old(s.aborted) && s.total == old(s.total) && s.current == old(s.current) && s.triggerComplete == old(s.triggerComplete)
-//@   ensures  nosend@C10: sent(b.operateState) == old(sent(b.operateState))
+//@   ensures  stable: s.aborted == old(s.aborted) && s.total == old(s.total) && s.current == old(s.current) && s.triggerComplete == old(s.triggerComplete)
+//@   ensures  nosend: sent(b.operateState) == old(sent(b.operateState))
 
 // Bar.serve: operations are applied one at a time by the owner (A-ACT rests on this being
 // the only receiver of operateState); on cancellation every shutdown-listening decorator,
@@ -1048,10 +1048,10 @@ package mpb
 //@   modifies spawned("(*Bar).serve$1$1")
 //@   loop 1   invariant called("(*sync.WaitGroup).Add") == old(called("(*sync.WaitGroup).Add")) + spawned("(*Bar).serve$1$1") - old(spawned("(*Bar).serve$1$1"))
 //@   loop 1   invariant called("unwrap") == old(called("unwrap")) + rangeindex + 1
-//@   loop 1   ensures once@C14: spawned("(*Bar).serve$1$1") - iter(spawned("(*Bar).serve$1$1")) == called("(*sync.WaitGroup).Add") - iter(called("(*sync.WaitGroup).Add"))
+//@   loop 1   ensures once: spawned("(*Bar).serve$1$1") - iter(spawned("(*Bar).serve$1$1")) == called("(*sync.WaitGroup).Add") - iter(called("(*sync.WaitGroup).Add"))
 //@              && spawned("(*Bar).serve$1$1") - iter(spawned("(*Bar).serve$1$1")) <= 1 && called("unwrap") == iter(called("unwrap")) + 1
 //@              && (hasType(returned("unwrap", 0), "decor.ShutdownListener") == (spawned("(*Bar).serve$1$1") == iter(spawned("(*Bar).serve$1$1")) + 1))
-//@   ensures  every@C14: called("unwrap") == old(called("unwrap")) + len(group)
+//@   ensures  every: called("unwrap") == old(called("unwrap")) + len(group)
 
 // bsOk is only ever closed, by the bar's own goroutine, after the final state has been
 // published in b.bs ((*Bar).serve, clause published): a completed receive on it means b.bs is set.
@@ -1063,18 +1063,18 @@ package mpb
 //@   requires b != nil && bs != nil
 //@   assumes  owner: !closed(b.bsOk)
 //@   requires forall(i, 0, len(bs.decorGroups[0]), bs.decorGroups[0][i] != nil) && forall(i, 0, len(bs.decorGroups[1]), bs.decorGroups[1][i] != nil)
-//@   ensures  published@C10,C02: b.bs == bs && closed(b.bsOk)
-//@   ensures  exclusive@C11,C14: bs.aborted == !bs.completed()
-//@   ensures  settled@C11,C14: bs.aborted == !at(1, bs.completed()) // a bar that had not completed when its context ended is aborted; nothing else flips
-//@   ensures  untouched@C11,C14: bs.current == at(1, bs.current) && bs.total == at(1, bs.total) && bs.triggerComplete == at(1, bs.triggerComplete)
-//@   ensures  counted@C14: called("(*sync.WaitGroup).Done") == old(called("(*sync.WaitGroup).Done")) + 1
+//@   ensures  published: b.bs == bs && closed(b.bsOk)
+//@   ensures  exclusive: bs.aborted == !bs.completed()
+//@   ensures  settled: bs.aborted == !at(1, bs.completed()) // a bar that had not completed when its context ended is aborted; nothing else flips
+//@   ensures  untouched: bs.current == at(1, bs.current) && bs.total == at(1, bs.total) && bs.triggerComplete == at(1, bs.triggerComplete)
+//@   ensures  counted: called("(*sync.WaitGroup).Done") == old(called("(*sync.WaitGroup).Done")) + 1
 
 // render: the frame function is either sent to the owner or, once the bar has shut down,
 // run here on the published state
 //@ func (*Bar).render
 //@   props    C03 C10 C15
 //@   requires b != nil && tw >= 0 && tw <= 1<<31
-//@   ensures  once@C10: sent(b.operateState) <= old(sent(b.operateState)) + 1
+//@   ensures  once: sent(b.operateState) <= old(sent(b.operateState)) + 1
 
 // user callbacks run on the bar goroutine may adjust decorators (AverageAdjust) but are
 // assumed not to write the library's own state
@@ -1092,17 +1092,17 @@ package mpb
 //@   requires wkey(cw.out) != cw.Buffer
 //@   assumes  s.reqWidth <= 1<<31
 //@   requires parked: forall(k, has(s.queueBars, k) ==> s.queueBars[k] != nil)
-//@   ensures  errdrop@C15: closed(s.iterDrop) ==> err != nil
+//@   ensures  errdrop: closed(s.iterDrop) ==> err != nil
 //@   ensures  once: err == nil ==> !closed(s.iterDrop)
 //@   ensures  open: !closed(s.hm)
 //@   ensures  parkedstill: forall(k, has(s.queueBars, k) ==> s.queueBars[k] != nil)
-//@   ensures  requests@C05: called("(heapManager).sync") == old(called("(heapManager).sync")) + 1 && called("(heapManager).iter") == old(called("(heapManager).iter")) + 1
+//@   ensures  requests: called("(heapManager).sync") == old(called("(heapManager).sync")) + 1 && called("(heapManager).iter") == old(called("(heapManager).iter")) + 1
 //@              && calledWith("(heapManager).sync", 1) == s.iterDrop && calledWith("(heapManager).iter", 1) == s.iterDrop
-//@   ensures  size@C04,C18: !cw.terminal && called("(*pState).flush") == old(called("(*pState).flush")) + 1
+//@   ensures  size: !cw.terminal && called("(*pState).flush") == old(called("(*pState).flush")) + 1
 //@              ==> calledWith("(*pState).flush", 2) == ite(s.reqWidth > 0, s.reqWidth, 80)
-//@   ensures  fits@C04: cw.terminal && called("(*pState).flush") == old(called("(*pState).flush")) + 1
+//@   ensures  fits: cw.terminal && called("(*pState).flush") == old(called("(*pState).flush")) + 1
 //@              ==> calledWith("(*pState).flush", 2) <= max(returned("(*Writer).GetTermSize", 1) - 1, 0)
-//@   ensures  noframe@C15: cw.terminal && returned("(*Writer).GetTermSize", 2) != nil ==> called("(*pState).flush") == old(called("(*pState).flush")) && err != nil
+//@   ensures  noframe: cw.terminal && returned("(*Writer).GetTermSize", 2) != nil ==> called("(*pState).flush") == old(called("(*pState).flush")) && err != nil
 
 // operations and writes handed to the container goroutine (static obligation chan-frame for
 // every closure the module sends on Progress.operateState / Progress.interceptIO)
@@ -1131,7 +1131,7 @@ package mpb
 //@   props    C15 C02
 //@   requires s != nil && p != nil
 //@   loop 1   invariant recvd(p.done) == old(recvd(p.done)) && p.done == old(p.done)
-//@   ensures  untildone@C15,C02: recvd(p.done) == old(recvd(p.done)) + 1
+//@   ensures  untildone: recvd(p.done) == old(recvd(p.done)) + 1
 
 //@ func (*Progress).serve
 //@   props    C03 C04 C13 C14 C15 C05 C02
@@ -1139,30 +1139,30 @@ package mpb
 //@   requires s.iterDrop != p.done && s.iterDrop != s.delayRC
 //@   assumes  owner: !closed(s.hm) && !closed(s.iterDrop)
 //@   requires parked: forall(k, has(s.queueBars, k) ==> s.queueBars[k] != nil)
-//@   loop 1   invariant errstop@C15: err != nil ==> renderReq == nil && operateState == nil && interceptIO == nil
+//@   loop 1   invariant errstop: err != nil ==> renderReq == nil && operateState == nil && interceptIO == nil
 //@   loop 1   invariant err == nil ==> !closed(s.iterDrop)
 //@   loop 1   invariant s.iterDrop != p.done && s.iterDrop != s.delayRC && s.iterDrop == old(s.iterDrop) && p.done == old(p.done)
 //@   loop 1   invariant !closed(s.hm) && w != nil && wkey(w.out) != w.Buffer && s == in(s) && p == in(p)
 //@   loop 1   invariant forall(k, has(s.queueBars, k) ==> s.queueBars[k] != nil)
-//@   loop 1   invariant delay@C04: (s.delayRC != nil ==> cw != nil && cw == in(cw) && w != in(cw) && w.out == global("io.Discard")) && (s.delayRC == nil ==> w == in(cw))
+//@   loop 1   invariant delay: (s.delayRC != nil ==> cw != nil && cw == in(cw) && w != in(cw) && w.out == global("io.Discard")) && (s.delayRC == nil ==> w == in(cw))
 //@   loop 1   invariant called("(heapManager).end") == old(called("(heapManager).end")) && called("fmt.Fprintln") == old(called("fmt.Fprintln"))
 //@   loop 1   invariant s.debugOut == old(s.debugOut) && s.shutdownNotifier == old(s.shutdownNotifier) && s.autoRefresh == old(s.autoRefresh)
-//@   loop 1   ensures intercept@C13: called("(*Progress).serve.fn") == iter(called("(*Progress).serve.fn")) + 1 ==> calledWith("(*Progress).serve.fn", 0) == iter(w)
+//@   loop 1   ensures intercept: called("(*Progress).serve.fn") == iter(called("(*Progress).serve.fn")) + 1 ==> calledWith("(*Progress).serve.fn", 0) == iter(w)
 //@   loop 1   ensures onerender: called("(*pState).render") <= iter(called("(*pState).render")) + 1
-//@   loop 1   ensures cancelonce@C15: iter(err) == nil && err != nil ==> called("Progress.cancel") == iter(called("Progress.cancel")) + 1 && spawned("(*Progress).serve$1") == iter(spawned("(*Progress).serve$1")) + 1
+//@   loop 1   ensures cancelonce: iter(err) == nil && err != nil ==> called("Progress.cancel") == iter(called("Progress.cancel")) + 1 && spawned("(*Progress).serve$1") == iter(spawned("(*Progress).serve$1")) + 1
 //@   loop 2   invariant !closed(s.hm) && w != nil && wkey(w.out) != w.Buffer && !closed(s.iterDrop) && update != nil && i >= 0
 //@   loop 2   assumes   i < MaxInt64 // one increment per rendered final frame
 //@   loop 2   invariant forall(k, has(s.queueBars, k) ==> s.queueBars[k] != nil)
 //@   loop 2   invariant called("(heapManager).end") == old(called("(heapManager).end")) && called("fmt.Fprintln") == old(called("fmt.Fprintln"))
 //@   loop 2   invariant called("(*pState).render") == entry(2, called("(*pState).render")) + i
 //@   loop 2   invariant s.debugOut == old(s.debugOut) && s.shutdownNotifier == old(s.shutdownNotifier) && s == in(s)
-//@   ensures  ended@C14,C05,C02: called("(heapManager).end") == old(called("(heapManager).end")) + 1 && calledWith("(heapManager).end", 1) == old(s.shutdownNotifier)
-//@   ensures  reported@C15: called("fmt.Fprintln") <= old(called("fmt.Fprintln")) + 1 && (err#1 != nil ==> called("fmt.Fprintln") == old(called("fmt.Fprintln")) + 1 && calledWith("fmt.Fprintln", 0) == old(s.debugOut))
-//@   ensures  noframeaftererror@C15: err#1 != nil ==> called("(*pState).render") == at(1, called("(*pState).render"))
-//@   loop 2   ensures asks@C03: returned("(*pState).render", 0) == nil ==> called("(heapManager).state") == iter(called("(heapManager).state")) + 1 && calledWith("(heapManager).state", 1) == update
-//@   ensures  settled@C03: err#1 == nil && s.autoRefresh && returned("(*pState).render", 0) == nil ==> !lastRecvd(update)
+//@   ensures  ended: called("(heapManager).end") == old(called("(heapManager).end")) + 1 && calledWith("(heapManager).end", 1) == old(s.shutdownNotifier)
+//@   ensures  reported: called("fmt.Fprintln") <= old(called("fmt.Fprintln")) + 1 && (err#1 != nil ==> called("fmt.Fprintln") == old(called("fmt.Fprintln")) + 1 && calledWith("fmt.Fprintln", 0) == old(s.debugOut))
+//@   ensures  noframeaftererror: err#1 != nil ==> called("(*pState).render") == at(1, called("(*pState).render"))
+//@   loop 2   ensures asks: returned("(*pState).render", 0) == nil ==> called("(heapManager).state") == iter(called("(heapManager).state")) + 1 && calledWith("(heapManager).state", 1) == update
+//@   ensures  settled: err#1 == nil && s.autoRefresh && returned("(*pState).render", 0) == nil ==> !lastRecvd(update)
 //@   ensures  finalmanual@C03,C13: err#1 == nil && s.manualRC != nil ==> called("(*pState).render") >= at(1, called("(*pState).render")) + 1 // manual refresh: what was accepted or changed after the last requested refresh is still shown
-//@   ensures  finalframe@C03,C13: err#1 == nil && s.autoRefresh ==> called("(*pState).render") >= entry(2, called("(*pState).render")) + 1
+//@   ensures  finalframe: err#1 == nil && s.autoRefresh ==> called("(*pState).render") >= entry(2, called("(*pState).render")) + 1
 //@   ensures  released: called("(*sync.WaitGroup).Done") == old(called("(*sync.WaitGroup).Done")) + 1
 
 //@ func BarFillerMiddleware$1
@@ -1194,95 +1194,95 @@ package mpb
 //@   props    C09 C10 C02
 //@   requires b != nil
 //@   modifies sent(b.operateState), recvd("<-chan struct{}")
-//@   ensures  atomic@C10: sent(b.operateState) <= old(sent(b.operateState)) + 1
-//@   ensures  accepted@C09: sent(b.operateState) == old(sent(b.operateState)) + 1 || recvd(done(b.ctx)) > old(recvd(done(b.ctx)))
-//@   ensures  payload@C09: sent(b.operateState) == old(sent(b.operateState)) + 1 ==> fnof(lastSent(b.operateState)) == fn("(*Bar).IncrInt64$1") && bound(lastSent(b.operateState), "b") == in(b) && bound(lastSent(b.operateState), "n") == in(n)
+//@   ensures  atomic: sent(b.operateState) <= old(sent(b.operateState)) + 1
+//@   ensures  accepted: sent(b.operateState) == old(sent(b.operateState)) + 1 || recvd(done(b.ctx)) > old(recvd(done(b.ctx)))
+//@   ensures  payload: sent(b.operateState) == old(sent(b.operateState)) + 1 ==> fnof(lastSent(b.operateState)) == fn("(*Bar).IncrInt64$1") && bound(lastSent(b.operateState), "b") == in(b) && bound(lastSent(b.operateState), "n") == in(n)
 
 //@ func (*Bar).SetCurrent
 //@   props    C09 C10 C02
 //@   requires b != nil
 //@   modifies sent(b.operateState), recvd("<-chan struct{}")
-//@   ensures  atomic@C10: sent(b.operateState) <= old(sent(b.operateState)) + 1
-//@   ensures  ignored@C09: current < 0 ==> sent(b.operateState) == old(sent(b.operateState))
-//@   ensures  accepted@C09: current >= 0 ==> sent(b.operateState) == old(sent(b.operateState)) + 1 || recvd(done(b.ctx)) > old(recvd(done(b.ctx)))
-//@   ensures  payload@C09: sent(b.operateState) == old(sent(b.operateState)) + 1 ==> fnof(lastSent(b.operateState)) == fn("(*Bar).SetCurrent$1") && bound(lastSent(b.operateState), "current") == in(current)
+//@   ensures  atomic: sent(b.operateState) <= old(sent(b.operateState)) + 1
+//@   ensures  ignored: current < 0 ==> sent(b.operateState) == old(sent(b.operateState))
+//@   ensures  accepted: current >= 0 ==> sent(b.operateState) == old(sent(b.operateState)) + 1 || recvd(done(b.ctx)) > old(recvd(done(b.ctx)))
+//@   ensures  payload: sent(b.operateState) == old(sent(b.operateState)) + 1 ==> fnof(lastSent(b.operateState)) == fn("(*Bar).SetCurrent$1") && bound(lastSent(b.operateState), "current") == in(current)
 
 //@ func (*Bar).SetTotal
 //@   props    C09 C10 C02
 //@   requires b != nil
 //@   modifies sent(b.operateState), recvd("<-chan struct{}")
-//@   ensures  atomic@C10: sent(b.operateState) <= old(sent(b.operateState)) + 1
-//@   ensures  accepted@C09: sent(b.operateState) == old(sent(b.operateState)) + 1 || recvd(done(b.ctx)) > old(recvd(done(b.ctx)))
-//@   ensures  payload@C09: sent(b.operateState) == old(sent(b.operateState)) + 1 ==> fnof(lastSent(b.operateState)) == fn("(*Bar).SetTotal$1") && bound(lastSent(b.operateState), "b") == in(b) && bound(lastSent(b.operateState), "total") == in(total) && bound(lastSent(b.operateState), "complete") == in(complete)
+//@   ensures  atomic: sent(b.operateState) <= old(sent(b.operateState)) + 1
+//@   ensures  accepted: sent(b.operateState) == old(sent(b.operateState)) + 1 || recvd(done(b.ctx)) > old(recvd(done(b.ctx)))
+//@   ensures  payload: sent(b.operateState) == old(sent(b.operateState)) + 1 ==> fnof(lastSent(b.operateState)) == fn("(*Bar).SetTotal$1") && bound(lastSent(b.operateState), "b") == in(b) && bound(lastSent(b.operateState), "total") == in(total) && bound(lastSent(b.operateState), "complete") == in(complete)
 
 //@ func (*Bar).SetRefill
 //@   props    C09 C10 C02
 //@   requires b != nil
 //@   modifies sent(b.operateState), recvd("<-chan struct{}")
-//@   ensures  atomic@C10: sent(b.operateState) <= old(sent(b.operateState)) + 1
-//@   ensures  accepted@C09: sent(b.operateState) == old(sent(b.operateState)) + 1 || recvd(done(b.ctx)) > old(recvd(done(b.ctx)))
-//@   ensures  payload@C09: sent(b.operateState) == old(sent(b.operateState)) + 1 ==> fnof(lastSent(b.operateState)) == fn("(*Bar).SetRefill$1") && bound(lastSent(b.operateState), "amount") == in(amount)
+//@   ensures  atomic: sent(b.operateState) <= old(sent(b.operateState)) + 1
+//@   ensures  accepted: sent(b.operateState) == old(sent(b.operateState)) + 1 || recvd(done(b.ctx)) > old(recvd(done(b.ctx)))
+//@   ensures  payload: sent(b.operateState) == old(sent(b.operateState)) + 1 ==> fnof(lastSent(b.operateState)) == fn("(*Bar).SetRefill$1") && bound(lastSent(b.operateState), "amount") == in(amount)
 
 //@ func (*Bar).EnableTriggerComplete
 //@   props    C09 C10 C02
 //@   requires b != nil
 //@   modifies sent(b.operateState), recvd("<-chan struct{}")
-//@   ensures  atomic@C10: sent(b.operateState) <= old(sent(b.operateState)) + 1
-//@   ensures  accepted@C09: sent(b.operateState) == old(sent(b.operateState)) + 1 || recvd(done(b.ctx)) > old(recvd(done(b.ctx)))
-//@   ensures  payload@C09: sent(b.operateState) == old(sent(b.operateState)) + 1 ==> fnof(lastSent(b.operateState)) == fn("(*Bar).EnableTriggerComplete$1") && bound(lastSent(b.operateState), "b") == in(b)
+//@   ensures  atomic: sent(b.operateState) <= old(sent(b.operateState)) + 1
+//@   ensures  accepted: sent(b.operateState) == old(sent(b.operateState)) + 1 || recvd(done(b.ctx)) > old(recvd(done(b.ctx)))
+//@   ensures  payload: sent(b.operateState) == old(sent(b.operateState)) + 1 ==> fnof(lastSent(b.operateState)) == fn("(*Bar).EnableTriggerComplete$1") && bound(lastSent(b.operateState), "b") == in(b)
 
 //@ func (*Bar).Abort
 //@   props    C09 C10 C02
 //@   requires b != nil
 //@   modifies sent(b.operateState), recvd("<-chan struct{}")
-//@   ensures  atomic@C10: sent(b.operateState) <= old(sent(b.operateState)) + 1
-//@   ensures  accepted@C09: sent(b.operateState) == old(sent(b.operateState)) + 1 || recvd(done(b.ctx)) > old(recvd(done(b.ctx)))
-//@   ensures  payload@C09: sent(b.operateState) == old(sent(b.operateState)) + 1 ==> fnof(lastSent(b.operateState)) == fn("(*Bar).Abort$1") && bound(lastSent(b.operateState), "b") == in(b) && bound(lastSent(b.operateState), "drop") == in(drop)
+//@   ensures  atomic: sent(b.operateState) <= old(sent(b.operateState)) + 1
+//@   ensures  accepted: sent(b.operateState) == old(sent(b.operateState)) + 1 || recvd(done(b.ctx)) > old(recvd(done(b.ctx)))
+//@   ensures  payload: sent(b.operateState) == old(sent(b.operateState)) + 1 ==> fnof(lastSent(b.operateState)) == fn("(*Bar).Abort$1") && bound(lastSent(b.operateState), "b") == in(b) && bound(lastSent(b.operateState), "drop") == in(drop)
 
 //@ func (*Bar).EwmaIncrInt64
 //@   props    C09 C10 C02 C19
 //@   requires b != nil
 //@   modifies sent(b.operateState), recvd("<-chan struct{}")
-//@   ensures  atomic@C10: sent(b.operateState) <= old(sent(b.operateState)) + 1
-//@   ensures  accepted@C09: sent(b.operateState) == old(sent(b.operateState)) + 1 || recvd(done(b.ctx)) > old(recvd(done(b.ctx)))
-//@   ensures  payload@C09: sent(b.operateState) == old(sent(b.operateState)) + 1 ==> fnof(lastSent(b.operateState)) == fn("(*Bar).EwmaIncrInt64$1") && bound(lastSent(b.operateState), "b") == in(b) && bound(lastSent(b.operateState), "n") == in(n) && bound(lastSent(b.operateState), "iterDur") == in(iterDur)
+//@   ensures  atomic: sent(b.operateState) <= old(sent(b.operateState)) + 1
+//@   ensures  accepted: sent(b.operateState) == old(sent(b.operateState)) + 1 || recvd(done(b.ctx)) > old(recvd(done(b.ctx)))
+//@   ensures  payload: sent(b.operateState) == old(sent(b.operateState)) + 1 ==> fnof(lastSent(b.operateState)) == fn("(*Bar).EwmaIncrInt64$1") && bound(lastSent(b.operateState), "b") == in(b) && bound(lastSent(b.operateState), "n") == in(n) && bound(lastSent(b.operateState), "iterDur") == in(iterDur)
 
 //@ func (*Bar).EwmaSetCurrent
 //@   props    C09 C10 C02
 //@   requires b != nil
 //@   modifies sent(b.operateState), recvd("<-chan struct{}")
-//@   ensures  atomic@C10: sent(b.operateState) <= old(sent(b.operateState)) + 1
-//@   ensures  ignored@C09: current < 0 ==> sent(b.operateState) == old(sent(b.operateState))
-//@   ensures  accepted@C09: current >= 0 ==> sent(b.operateState) == old(sent(b.operateState)) + 1 || recvd(done(b.ctx)) > old(recvd(done(b.ctx)))
-//@   ensures  payload@C09: sent(b.operateState) == old(sent(b.operateState)) + 1 ==> fnof(lastSent(b.operateState)) == fn("(*Bar).EwmaSetCurrent$1") && bound(lastSent(b.operateState), "b") == in(b) && bound(lastSent(b.operateState), "current") == in(current) && bound(lastSent(b.operateState), "iterDur") == in(iterDur)
+//@   ensures  atomic: sent(b.operateState) <= old(sent(b.operateState)) + 1
+//@   ensures  ignored: current < 0 ==> sent(b.operateState) == old(sent(b.operateState))
+//@   ensures  accepted: current >= 0 ==> sent(b.operateState) == old(sent(b.operateState)) + 1 || recvd(done(b.ctx)) > old(recvd(done(b.ctx)))
+//@   ensures  payload: sent(b.operateState) == old(sent(b.operateState)) + 1 ==> fnof(lastSent(b.operateState)) == fn("(*Bar).EwmaSetCurrent$1") && bound(lastSent(b.operateState), "b") == in(b) && bound(lastSent(b.operateState), "current") == in(current) && bound(lastSent(b.operateState), "iterDur") == in(iterDur)
 
 //@ func (*Bar).Current
 //@   props    C09 C10 C02
 //@   requires b != nil
 //@   modifies sent(b.operateState), recvd()
-//@   ensures  atomic@C10: sent(b.operateState) <= old(sent(b.operateState)) + 1
-//@   ensures  late@C02: sent(b.operateState) == old(sent(b.operateState)) ==> result == b.bs.current
+//@   ensures  atomic: sent(b.operateState) <= old(sent(b.operateState)) + 1
+//@   ensures  late: sent(b.operateState) == old(sent(b.operateState)) ==> result == b.bs.current
 
 //@ func (*Bar).ID
 //@   props    C09 C10 C02
 //@   requires b != nil
 //@   modifies sent(b.operateState), recvd()
-//@   ensures  atomic@C10: sent(b.operateState) <= old(sent(b.operateState)) + 1
-//@   ensures  late@C02: sent(b.operateState) == old(sent(b.operateState)) ==> result == b.bs.id
+//@   ensures  atomic: sent(b.operateState) <= old(sent(b.operateState)) + 1
+//@   ensures  late: sent(b.operateState) == old(sent(b.operateState)) ==> result == b.bs.id
 
 //@ func (*Bar).Aborted
 //@   props    C09 C10 C11 C02
 //@   requires b != nil
 //@   modifies sent(b.operateState), recvd()
-//@   ensures  atomic@C10: sent(b.operateState) <= old(sent(b.operateState)) + 1
-//@   ensures  late@C02,C11: sent(b.operateState) == old(sent(b.operateState)) ==> result == b.bs.aborted
+//@   ensures  atomic: sent(b.operateState) <= old(sent(b.operateState)) + 1
+//@   ensures  late: sent(b.operateState) == old(sent(b.operateState)) ==> result == b.bs.aborted
 
 //@ func (*Bar).Completed
 //@   props    C09 C10 C11 C02
 //@   requires b != nil
 //@   modifies sent(b.operateState), recvd()
-//@   ensures  atomic@C10: sent(b.operateState) <= old(sent(b.operateState)) + 1
-//@   ensures  late@C02,C11: sent(b.operateState) == old(sent(b.operateState)) ==> result == b.bs.completed()
+//@   ensures  atomic: sent(b.operateState) <= old(sent(b.operateState)) + 1
+//@   ensures  late: sent(b.operateState) == old(sent(b.operateState)) ==> result == b.bs.completed()
 
 //@ func (*Bar).IsRunning
 //@   props    C14 C02
@@ -1293,7 +1293,7 @@ package mpb
 //@   props    C14 C02 C11
 //@   requires b != nil
 //@   modifies recvd(b.bsOk)
-//@   ensures  settled@C11,C14: recvd(b.bsOk) == old(recvd(b.bsOk)) + 1
+//@   ensures  settled: recvd(b.bsOk) == old(recvd(b.bsOk)) + 1
 
 // public API of Progress after the container is done (C02): Add returns (nil, ErrDone), Write
 // returns (0, ErrDone); C13: a write that is accepted is applied once, to the writer the
@@ -1302,28 +1302,28 @@ package mpb
 //@ func (*Progress).Write$1
 //@   props    C13 C02
 //@   requires w != nil && ch != nil
-//@   ensures  once@C13: called("io.Writer.Write") == old(called("io.Writer.Write")) + 1 && calledWith("io.Writer.Write", 0) == w && calledWith("io.Writer.Write", 1) == b
-//@   ensures  answer@C13: sent(ch) == old(sent(ch)) + 1 && lastSent(ch).n == returned("io.Writer.Write", 0) && lastSent(ch).err == returned("io.Writer.Write", 1)
+//@   ensures  once: called("io.Writer.Write") == old(called("io.Writer.Write")) + 1 && calledWith("io.Writer.Write", 0) == w && calledWith("io.Writer.Write", 1) == b
+//@   ensures  answer: sent(ch) == old(sent(ch)) + 1 && lastSent(ch).n == returned("io.Writer.Write", 0) && lastSent(ch).err == returned("io.Writer.Write", 1)
 
 //@ func (*Progress).Write
 //@   props    C13 C02 C10
 //@   requires p != nil
-//@   ensures  late@C02,C13: sent(p.interceptIO) == old(sent(p.interceptIO)) ==> result0 == 0 && result1 == global("github.com/vbauerster/mpb/v8.ErrDone")
-//@   ensures  atomic@C10: sent(p.interceptIO) <= old(sent(p.interceptIO)) + 1
+//@   ensures  late: sent(p.interceptIO) == old(sent(p.interceptIO)) ==> result0 == 0 && result1 == global("github.com/vbauerster/mpb/v8.ErrDone")
+//@   ensures  atomic: sent(p.interceptIO) <= old(sent(p.interceptIO)) + 1
 
 //@ func (*Progress).Add
 //@   props    C02 C05 C10
 //@   requires p != nil
-//@   ensures  late@C02: sent(p.operateState) == old(sent(p.operateState)) ==> result0 == nil && result1 == global("github.com/vbauerster/mpb/v8.ErrDone")
-//@   ensures  atomic@C10: sent(p.operateState) <= old(sent(p.operateState)) + 1
+//@   ensures  late: sent(p.operateState) == old(sent(p.operateState)) ==> result0 == nil && result1 == global("github.com/vbauerster/mpb/v8.ErrDone")
+//@   ensures  atomic: sent(p.operateState) <= old(sent(p.operateState)) + 1
 
 //@ func (*Progress).UpdateBarPriority
 //@   props    C06 C02 C10
 //@   requires p != nil
-//@   ensures  atomic@C10: sent(p.operateState) <= old(sent(p.operateState)) + 1
-//@   ensures  nilbar@C02: b == nil ==> sent(p.operateState) == old(sent(p.operateState))
-//@   ensures  accepted@C06: b != nil ==> sent(p.operateState) == old(sent(p.operateState)) + 1 || recvd(p.done) > old(recvd(p.done)) // any bar the caller holds, finished or not, as long as the container lives
-//@   ensures  payload@C06: sent(p.operateState) == old(sent(p.operateState)) + 1 ==> fnof(lastSent(p.operateState)) == fn("(*Progress).UpdateBarPriority$1") && bound(lastSent(p.operateState), "b") == in(b) && bound(lastSent(p.operateState), "priority") == in(priority) && bound(lastSent(p.operateState), "lazy") == in(lazy)
+//@   ensures  atomic: sent(p.operateState) <= old(sent(p.operateState)) + 1
+//@   ensures  nilbar: b == nil ==> sent(p.operateState) == old(sent(p.operateState))
+//@   ensures  accepted: b != nil ==> sent(p.operateState) == old(sent(p.operateState)) + 1 || recvd(p.done) > old(recvd(p.done)) // any bar the caller holds, finished or not, as long as the container lives
+//@   ensures  payload: sent(p.operateState) == old(sent(p.operateState)) + 1 ==> fnof(lastSent(p.operateState)) == fn("(*Progress).UpdateBarPriority$1") && bound(lastSent(p.operateState), "b") == in(b) && bound(lastSent(p.operateState), "priority") == in(priority) && bound(lastSent(p.operateState), "lazy") == in(lazy)
 
 //@ func (*Progress).UpdateBarPriority$1
 //@   props    C06 C02
@@ -1431,8 +1431,8 @@ package mpb
 //@ func makeExtenderFunc$1
 //@   props    C15 C02
 //@   requires filler != nil && buf != nil && stat.AvailableWidth >= 0 && stat.AvailableWidth <= 1<<31 && stat.RequestedWidth <= 1<<31
-//@   ensures  onerror@C15: result1 != nil ==> dw(written(buf)) == 0 && result0 == rows
-//@   ensures  drained@C15: result1 == nil ==> dw(written(buf)) == 0
+//@   ensures  onerror: result1 != nil ==> dw(written(buf)) == 0 && result0 == rows
+//@   ensures  drained: result1 == nil ==> dw(written(buf)) == 0
 
 //@ functype makeExtenderFunc$2.base
 //@   params   stat rows
